@@ -25,6 +25,7 @@ EXPLANATION = (
     "the lattice on the requested side(s) with extra // 2 before and the rest after for 'center' (evaluated on the "
     "extracted generator formulas for small counts -- a finite-instance argument, labelled as such), and the fill value "
     "is forwarded to reindex. Float matching of labels in sel/reindex and lattice values in range-based extension are not decided."
+    'R17.6 also requires the original coordinate array itself to be a piece of the new axis for every position (labels reused, never regenerated); R17.1 counts a generator once per position it serves. '
 )
 ASSUMPTIONS = ["np.arange over integers has exactly the integer count; xarray.reindex keeps data at matching labels (trusted)"]
 
